@@ -75,6 +75,11 @@ pub trait Dom: 'static {
     fn is_finite(v: &Self::V) -> bool;
     /// Display form that the library user would feed back (C19 round trip)
     fn display(v: &Self::V) -> String;
+    /// an expression text made of one literal (bracketed, with a sign when negative) that denotes exactly `v`,
+    /// when there is one of reasonable length
+    fn literal(_v: &Self::V) -> Option<String> {
+        None
+    }
 }
 
 fn judge_rv<T, G>(
@@ -193,6 +198,16 @@ impl Dom for F64 {
     }
     fn display(v: &f64) -> String {
         format!("{}", v)
+    }
+    fn literal(v: &f64) -> Option<String> {
+        if !v.is_finite() {
+            return None;
+        }
+        let a = format!("{}", v.abs());
+        if a.len() > 60 {
+            return None;
+        }
+        Some(if v.is_sign_negative() { format!("(-{})", a) } else { format!("({})", a) })
     }
 }
 
@@ -332,6 +347,12 @@ impl Dom for I64 {
     fn display(v: &i64) -> String {
         v.to_string()
     }
+    fn literal(v: &i64) -> Option<String> {
+        if *v == i64::MIN {
+            return None;
+        }
+        Some(if *v < 0 { format!("(-{})", -v) } else { format!("({})", v) })
+    }
 }
 
 // ------------------------------------------------------------------ decimal
@@ -469,6 +490,12 @@ impl Dom for Dec {
     fn display(v: &Decimal) -> String {
         format!("{}", v)
     }
+    fn literal(v: &Decimal) -> Option<String> {
+        if v.is_zero() && v.is_sign_negative() {
+            return None;
+        }
+        Some(if v.is_sign_negative() { format!("(-{})", v.abs()) } else { format!("({})", v) })
+    }
 }
 
 // ------------------------------------------------------------------ complex
@@ -558,6 +585,16 @@ impl Dom for Cpx {
     }
     fn display(v: &C) -> String {
         format!("{}", v)
+    }
+    fn literal(v: &C) -> Option<String> {
+        // a real literal denotes re + 0i
+        if v.im == 0.0 && v.im.is_sign_positive() && v.re.is_finite() && v.re.is_sign_positive() {
+            let a = format!("{}", v.re);
+            if a.len() <= 60 {
+                return Some(format!("({})", a));
+            }
+        }
+        None
     }
 }
 
@@ -686,6 +723,24 @@ impl Dom for Num {
         match v {
             Number::Integer(i) => i.to_string(),
             Number::Float(f) => format!("{}", f),
+        }
+    }
+    fn literal(v: &Number) -> Option<String> {
+        match v {
+            Number::Integer(i) => I64::literal(i),
+            Number::Float(f) => {
+                if !f.is_finite() || (*f == 0.0 && f.is_sign_negative()) {
+                    return None;
+                }
+                let mut a = format!("{}", f.abs());
+                if !a.contains('.') {
+                    a.push_str(".0");
+                }
+                if a.len() > 60 {
+                    return None;
+                }
+                Some(if *f < 0.0 { format!("(-{})", a) } else { format!("({})", a) })
+            }
         }
     }
 }
